@@ -390,6 +390,10 @@ class Run:
     # ------------------------------------------------------------ verdict
     def finish(self, coverage_extra=None, checker_cmd=None):
         prop = self.prop
+        if self.evaluations == 0 and not self.broken:
+            # a check that exercised the implementation on nothing has shown nothing: never "ok"
+            self.broken.append({"kind": "correspondence", "what": "no case at all was evaluated on the implementation: the model is not tied "
+                                                                 "to the code by this run"})
         kf = load_findings()
         known = {f["signature"]: f for f in kf.get("findings", []) if f["property"] == prop}
         lines = []
